@@ -198,11 +198,11 @@ func geom2Shp(g geom.Geom) (shp.Shape, error) {
 	case geom.Polygon:
 		return geom2polygon(g.(geom.Polygon)), nil
 	case *geom.Bounds:
-		pgs := g.(*geom.Bounds).Polygons()
-		if len(pgs) == 0 {
-			return &shp.Null{}, nil // a box without any point
-		}
-		return geom2polygon(pgs[0]), nil
+		// The four corners as they are (also of a box without any point, whose
+		// Polygons() is empty): a Null shape cannot be used here, the reader
+		// takes every record of a polygon file for a polygon.
+		b := g.(*geom.Bounds)
+		return geom2polygon(geom.Polygon{{b.Min, {X: b.Max.X, Y: b.Min.Y}, b.Max, {X: b.Min.X, Y: b.Max.Y}}}), nil
 	case geom.LineString:
 		return geom2polyLine(geom.MultiLineString{g.(geom.LineString)}), nil
 	case geom.MultiLineString:
